@@ -546,6 +546,8 @@ func rulesC02(c *Ctx) {
 	operandShapeC02(c)
 	formattersC02(c)
 	slotsC08(c)
+	// names and strings are printed through the quoting helpers: they must invert the lexer
+	importRules(c, rulesC06, "C06.", "C02.quoting-", nil)
 }
 
 func rulesC01(c *Ctx) {
@@ -554,4 +556,7 @@ func rulesC01(c *Ctx) {
 	c.Floor("C01.probe", n, 120)
 	dispatchC01(c)
 	tablesC01(c)
+	optionsC01(c)
+	// how operators group is part of the AST a text denotes
+	importRules(c, rulesC03, "C03.", "C01.grouping-", nil)
 }
